@@ -260,7 +260,7 @@ import re as _re
 import subprocess as _sp
 
 C05_DEFS = ["Literal", "Overlap", "Classes", "Dot", "Multibyte", "Anchors", "Alternation", "Fold", "PushPop", "String",
-            "Return", "ReturnNested", "ReturnSelf", "IncludeFirst", "IncludeMiddle", "IncludeNested", "IncludeDiamond", "MultiLine", "Astral", "OddNames", "LiteralMB", "Latin1Class", "PopInRoot", "ReturnInRoot", "OptionalGroupPush",
+            "Return", "ReturnNested", "ReturnSelf", "IncludeFirst", "IncludeMiddle", "IncludeNested", "IncludeDiamond", "MultiLine", "Astral", "OddNames", "LiteralMB", "Latin1Class", "NonASCIINames", "PopInRoot", "ReturnInRoot", "OptionalGroupPush",
             "ElidedActions", "NullableStar", "Possessive", "Repeat", "EmptyAlt", "NoWordBoundary", "EndAnchors", "FoldClass", "DotAll", "NonASCIILit", "NegClass"]
 
 C05_GENERATED = {"quick": 24, "thorough": 120}
